@@ -566,10 +566,10 @@ fn lone_heap_element(i: u64) -> String {
     };
     let churn = "stel b = 1.5 + 2.0; stel c = string(777); stel d = [2.5 + 4.0]";
     match shape {
-        0 => format!("functie f() {{ 0 }}\nstel a = [{}]\nf()\n{}\nf()\n[a[{}], b, c, d]", items(true), churn, k),
-        1 => format!("functie f() {{ 0 }}\nstel a = [{}]\na[{}] = {}\nf()\n{}\nf()\n[a[{}], b, c, d]", items(false), k, heap, churn, k),
+        0 => format!("functie f() {{ 0 }}\nstel a = [{}]\nf()\n{}\nf();\n[a[{}], b, c, d]", items(true), churn, k),
+        1 => format!("functie f() {{ 0 }}\nstel a = [{}]\na[{}] = {}\nf()\n{}\nf();\n[a[{}], b, c, d]", items(false), k, heap, churn, k),
         2 => format!("functie f() {{ 0 }}\nfunctie g() {{ stel a = [{}]; f(); {}; f(); [a[{}], b, c, d] }}\ng()", items(true), churn, k),
-        _ => format!("functie f() {{ 0 }}\nstel a = [1, [{}], 2]\nf()\n{}\nf()\nstel r = a[1]\n[r[{}], b, c, d]", items(true), churn, k),
+        _ => format!("functie f() {{ 0 }}\nstel a = [1, [{}], 2]\nf()\n{}\nf()\nstel r = a[1];\n[r[{}], b, c, d]", items(true), churn, k),
     }
 }
 
@@ -892,7 +892,12 @@ impl Check for Heap {
                     cfg.budget = Some(30_000_000);
                 }
                 let label = if name == "directed" { format!("{}:", directed()[i as usize].0) } else { String::new() };
-                let n = self.eval_and_audit(&text, &cfg, name, &label, st);
+                let before = st.violations.len();
+                let (n, outcome) = self.eval_and_audit_o(&text, &cfg, name, &label, st);
+                // the generated programs of this family are complete: one that ends without a value read nothing back
+                if name == "lone-heap-element" && st.violations.len() == before && !matches!(outcome, Outcome::Value(_)) {
+                    st.violation("lone-heap-element:no-value", format!("expected a list of four values, got {}", outcome.render()), &text);
+                }
                 if n >= 20 {
                     st.distinct_hash(hash_str(&text));
                 }
